@@ -186,6 +186,36 @@ theorem C30_match_result_is_mkList (c : Cx α) (f : Nat) (a b : G) (i n : Nat) (
     simp only [mkList, V.list.injEq, List.cons.injEq, and_true, true_and] at hp
     exact ⟨(s, r) :: pairs, by simp [mkList, hp]⟩
 
+/-! ## the helpers leave the match result alone -/
+
+/-- Helpers are functions of the result tree: in a sequence of helper calls on the same match
+result, the k-th call returns what that helper returns on the original tree, whatever was
+called before (this is the obligation on the Go code that takes `[]any` by reference; the
+correspondence run checks it on one real tree per sequence, key `helper-mutates-input`). -/
+theorem C30_helpers_pure (wrapf : V α → V α) (fn : Nat → V α → V α → V α) (fuel : Nat)
+    (ops : List HOp) (inp : List (V α)) (k : Nat) :
+    (seqOuts wrapf fn fuel ops inp)[k]? = ops[k]?.map (fun op => applyOp wrapf fn fuel op inp) := by
+  simp [seqOuts]
+
+/-- Re-applying a helper after any other helper gives the same answer again. -/
+theorem C30_helpers_repeatable (wrapf : V α → V α) (fn : Nat → V α → V α → V α) (fuel : Nat)
+    (h1 h2 : HOp) (inp : List (V α)) :
+    seqOuts wrapf fn fuel [h1, h2, h1] inp =
+      [applyOp wrapf fn fuel h1 inp, applyOp wrapf fn fuel h2 inp, applyOp wrapf fn fuel h1 inp] := rfl
+
+theorem C30_exprHelpers_pure (fuel : Nat) (ops : List Bool) (inp : List (V E)) (k : Nat) :
+    (seqExprOuts fuel ops inp)[k]? = ops[k]?.map (fun r => applyExprOp fuel r inp) := by
+  simp [seqExprOuts]
+
+/-- In particular `List` followed by `RangeOp` on the result of `R % sep` still visits the `R`
+results in source order (the seeded `append(in[:1], …)` change broke exactly this). -/
+theorem C30_list_then_rangeOp (wrapf : V α → V α) (fn : Nat → V α → V α → V α) (fuel : Nat)
+    (r0 : V α) (pairs : List (V α × V α)) :
+    seqOuts wrapf fn fuel [.list, .rangeop, .list] (mkList r0 pairs) =
+      [.lst (.ok (r0 :: pairs.map (·.2))), .visited (r0 :: pairs.map (·.2)) false,
+       .lst (.ok (r0 :: pairs.map (·.2)))] := by
+  simp [seqOuts, applyOp, C30_list_of, C30_rangeOp_order]
+
 /-! ## the README calculator -/
 
 section Calc
